@@ -91,17 +91,27 @@ def concrete_check(item, args: dict) -> dict:
         except Exception as e:  # noqa: BLE001
             return {"reproduced": False, "why": f"precondition raised {e!r}"}
     expected = tuple(conditions.raises)
+    from engine import api as _api
+
+    _api.MODEL_ERROR_LOG.clear()
     try:
         ret = item.fn(**args)
     except Exception as e:  # noqa: BLE001
         if expected and isinstance(e, expected):
             return {"reproduced": False, "why": f"raised declared {type(e).__name__}"}
+        why = _harness_side(e)
+        if why or _api.MODEL_ERROR_LOG:
+            return {"reproduced": False, "harness_model": True, "why": why or ("stub used outside its model: " + "; ".join(_api.MODEL_ERROR_LOG[:3]))}
         return {
             "reproduced": True,
             "how": "exception",
             "detail": f"{type(e).__name__}: {e}",
             "traceback": traceback.format_exc()[-3000:],
         }
+    if _api.MODEL_ERROR_LOG:
+        # a stub was touched outside what it models (possibly swallowed by a broad ``except`` in the
+        # code under test): whatever the run returned says nothing about the real code
+        return {"reproduced": False, "harness_model": True, "why": "stub used outside its model: " + "; ".join(_api.MODEL_ERROR_LOG[:3])}
     (post,) = conditions.post[:1]
     lcls2 = {**lcls, "_": ret, "__return__": ret, "__old__": None}
     try:
@@ -113,19 +123,44 @@ def concrete_check(item, args: dict) -> dict:
     return {"reproduced": True, "how": "post_false", "detail": f"returned {ret!r}", "ret": _jsonable(ret)}
 
 
+def _harness_side(e: BaseException) -> str:
+    """Non-empty when exception *e* (or a cause/context of it) is the harness's own model giving up:
+    a HarnessModelError, or an AttributeError on an object whose class is defined under /verif."""
+    seen = 0
+    cur: BaseException | None = e
+    while cur is not None and seen < 8:
+        if type(cur).__name__ == "HarnessModelError":
+            return f"HarnessModelError: {cur}"
+        if isinstance(cur, AttributeError):
+            obj = getattr(cur, "obj", None)
+            mod = getattr(type(obj), "__module__", "") if obj is not None else ""
+            if isinstance(obj, type):
+                mod = getattr(obj, "__module__", "")
+            if mod.split(".")[0] in ("harness", "engine"):
+                return f"harness fake lacks an attribute the code now uses: {cur}"
+        cur = cur.__cause__ or cur.__context__
+        seen += 1
+    return ""
+
+
 def real_replay(item, args: dict) -> dict:
     if item.replay is None:
         return {"available": False}
+    from engine import api as _api
     # Real-thread replays (coop) are timing-sensitive: a replay that does not reproduce is retried a
     # couple of times before the counterexample is called "not reproduced".  (Retrying can only turn
     # a non-reproduction into a reproduction on the real code, never the other way round.)
     attempts = 3 if str(getattr(item, "engine", "")).startswith("coop") else 1
     last: dict = {"available": True, "reproduced": False}
     for k in range(attempts):
+        _api.MODEL_ERROR_LOG.clear()
         try:
             r = item.replay(dict(args))
         except Exception as e:  # noqa: BLE001
             last = {"available": True, "reproduced": False, "error": f"{type(e).__name__}: {e}", "traceback": traceback.format_exc()[-3000:], "attempts": k + 1}
+            continue
+        if r and _api.MODEL_ERROR_LOG:
+            last = {"available": True, "reproduced": False, "attempts": k + 1, "error": "replay touched a stub outside its model: " + "; ".join(_api.MODEL_ERROR_LOG[:3])}
             continue
         if r:
             return {"available": True, "reproduced": True, "detail": str(r), "attempts": k + 1}
@@ -226,7 +261,11 @@ def run_xh(item, budget: float) -> dict:
 
     # 2. the condition itself
     captured.clear()
+    from engine import api as _api
+
+    _api.MODEL_ERROR_LOG.clear()
     analysis, stats, wall = analyze(conditions, budget)
+    model_errors = list(dict.fromkeys(_api.MODEL_ERROR_LOG))[:5]
     out["paths"] = stats.get("num_paths", 0)
     out["confirmed_paths"] = analysis.num_confirmed_paths
     out["solver_wall_s"] = round(wall, 3)
@@ -234,6 +273,13 @@ def run_xh(item, budget: float) -> dict:
     msgs = analysis.messages
     out["messages"] = [{"state": m.state.name, "message": m.message[:2000]} for m in msgs]
     if status is VerificationStatus.CONFIRMED:
+        if model_errors:
+            # some explored path left the stubs' model (and the error was swallowed on the way): the
+            # "confirmed" says nothing about that path
+            out["verdict"] = "INCONCLUSIVE"
+            out["harness_suspect"] = True
+            out["detail"] = "all paths confirmed, but a stub was used outside its model on some path: " + "; ".join(model_errors)
+            return out
         out["verdict"] = "CONFIRMED"
         return out
     if status is VerificationStatus.UNKNOWN:
